@@ -17,6 +17,14 @@ CHECKS = {
         text="Seeded hostile byte streams (mutations, wrong shapes, random bytes) with close/reset at drawn byte offsets and phases, a probe connection, then Shutdown or idle timeout; oracle: model answers for complete well-formed frames, nothing dispatched otherwise, no panic, no task left at quiescence, serving drains.",
         technique=DST + "peer abort/close at arbitrary byte offsets, back-pressure, quiescence-based liveness oracle",
         ref="DESIGN.md §4 C10"),
+    "C14": dict(
+        text="Seeded histories over {serve round (Listen | Bind+DoListen), client connect/call/close/abort, handler failure, context cancel, Shutdown, second Bind/Listen, re-serve on the same address}; Shutdown placed by observed accept-loop phase plus statement-level preemption inside Shutdown, the loop and teardown. Oracles: every round ends once Shutdown was issued and clients are gone; nil return when Shutdown found the loop blocked in Accept; nothing dialled after Shutdown returned is accepted by that round; no return before accepted connections ended; listener closed at return; re-bind succeeds; second bind while serving refused.",
+        technique=DST + "seeded scheduler preempting between statements of the accept loop / Shutdown / teardown, life-cycle history oracle with bounded liveness at quiescence",
+        ref="DESIGN.md §4 C14"),
+    "C15": dict(
+        text="Same histories with idle timeouts from 1 us to 24 h on the simulated clock (and timeout 0 as control). Oracles are exact because running code takes no simulated time: timeout return not before last-new-connection + timeout, not after last-connection-end + timeout, never while an obliged client still has to be served, always eventually when idle; never a self-stop without timeout; listener closed at the timeout return, later dials refused, re-serve works.",
+        technique=DST + "simulated clock with accept-deadline expiries as kernel events, ties decided by the seeded scheduler, exact timing oracle",
+        ref="DESIGN.md §4 C15"),
 }
 
 NA = {
@@ -28,7 +36,7 @@ NA = {
     "C20": "pure function of process-global OS state (environment, pid, inherited fd table) with no seam; a finite configuration product to enumerate in subprocesses, not simulation (DESIGN.md §5)",
 }
 
-PENDING = {'C02': 'simulation-decidable (DESIGN.md §4) but its check is not built yet at this commit; not claimed until it is', 'C03': 'simulation-decidable (DESIGN.md §4) but its check is not built yet at this commit; not claimed until it is', 'C11': 'simulation-decidable (DESIGN.md §4) but its check is not built yet at this commit; not claimed until it is', 'C12': 'simulation-decidable (DESIGN.md §4) but its check is not built yet at this commit; not claimed until it is', 'C13': 'simulation-decidable (DESIGN.md §4) but its check is not built yet at this commit; not claimed until it is', 'C14': 'simulation-decidable (DESIGN.md §4) but its check is not built yet at this commit; not claimed until it is', 'C15': 'simulation-decidable (DESIGN.md §4) but its check is not built yet at this commit; not claimed until it is', 'C16': 'simulation-decidable (DESIGN.md §4) but its check is not built yet at this commit; not claimed until it is', 'C17': 'simulation-decidable (DESIGN.md §4) but its check is not built yet at this commit; not claimed until it is', 'C18': 'simulation-decidable (DESIGN.md §4) but its check is not built yet at this commit; not claimed until it is', 'C19': 'simulation-decidable (DESIGN.md §4) but its check is not built yet at this commit; not claimed until it is'}
+PENDING = {'C02': 'simulation-decidable (DESIGN.md §4) but its check is not built yet at this commit; not claimed until it is', 'C03': 'simulation-decidable (DESIGN.md §4) but its check is not built yet at this commit; not claimed until it is', 'C11': 'simulation-decidable (DESIGN.md §4) but its check is not built yet at this commit; not claimed until it is', 'C12': 'simulation-decidable (DESIGN.md §4) but its check is not built yet at this commit; not claimed until it is', 'C13': 'simulation-decidable (DESIGN.md §4) but its check is not built yet at this commit; not claimed until it is', 'C16': 'simulation-decidable (DESIGN.md §4) but its check is not built yet at this commit; not claimed until it is', 'C17': 'simulation-decidable (DESIGN.md §4) but its check is not built yet at this commit; not claimed until it is', 'C18': 'simulation-decidable (DESIGN.md §4) but its check is not built yet at this commit; not claimed until it is', 'C19': 'simulation-decidable (DESIGN.md §4) but its check is not built yet at this commit; not claimed until it is'}
 
 def main():
     checks = []
